@@ -31,7 +31,11 @@ def run(ctx):
     R5 = rep.rule('C14.R5', 'who-may-record: Record insertions <- add_*record <- Cache impl only; the record comes from this thread\'s RECORDING cell', floor=5)
     R6 = rep.rule('C14.R6', 'a file dependency is (id, ext) in that order on the recording side and on the event side', floor=2)
     R7 = rep.rule('C14.R7', 'no_record suspends recording whichever cache it is called on (the recorder belongs to the thread, not to a cache)', floor=2)
+    S1 = rep.rule('C05.R1', 'an entry a load touches is recorded for it whether or not the read succeeds: the record precedes the source access (an entry that was looked for and not found is a dependency too; shared with C05)', floor=5)
     for cfg, F in ctx.hr_cfgs():
+        from c05 import r1 as record_before_read
+        record_before_read(S1, cfg, F)
+        S1.finish_cfg(cfg)
         r6(R6, cfg, F)
         R6.finish_cfg(cfg)
         r7(R7, cfg, F)
